@@ -1068,7 +1068,16 @@ impl BufferParser for Parser {
                                 ).into());
                             }
                             if let Some(number) = self.parsed_numbers.first() {
-                                for _ in 0..*number {
+                                // with margins the rows between cursor and bottom margin are all blank after that many
+                                // insertions; without margins further rows are only pushed below the visible screen
+                                let rows = buf.layers[current_layer].lines.len() as i32;
+                                let limit = if buf.terminal_state.get_margins_top_bottom().is_some() {
+                                    max(rows, caret.pos.y.saturating_add(1)).saturating_add(buf.terminal_state.get_height()).saturating_add(1)
+                                } else {
+                                    max(0, buf.get_first_visible_line().saturating_add(buf.terminal_state.get_height()).saturating_sub(caret.pos.y))
+                                };
+                                let number = min(*number, limit);
+                                for _ in 0..number {
                                     buf.insert_terminal_line(current_layer,caret.pos.y);
                                 }
                             } else {
